@@ -833,8 +833,15 @@ class Run:
                                   f"{core.short_hash(repr((r['ret'], r['out'])))})", fp)
             self._pending = pending
         elif exc is not None and injected is None:
-            self.viol("C11", "C11/render-raised",
-                      f"{opkind} raised {exc!r} on a compiled object", fp)
+            # the caller scribbled on the symbol, so outputs are not comparable - but a
+            # renderer that fails where it works for a fresh object is still wrong (some
+            # renderings fail legitimately, e.g. Pillow on a degenerate shape at box size 1:
+            # then the fresh object fails in the same way)
+            r = self.ref(m.spec_rendered(refop))
+            if r["exc"] is None:
+                self.viol("C11", "C11/render-raised",
+                          f"{opkind} raised {exc!r} on a compiled object; the same call works "
+                          f"on a fresh object", fp)
         return exc, ret, out, "clean"
 
     def op_get_matrix(self, qr, m, op):
